@@ -157,6 +157,13 @@ func genC08(t *rapid.T) C08Case {
 			s = s[:1] + rapid.SampledFrom([]string{"a", "E", "*", "é", " ", "A"}).Draw(t, "bad") + s[1:]
 		case 6:
 			s = rapid.SampledFrom([]string{"", "!", "A", "AB!", "!AB", "12", "a1b"}).Draw(t, "junk")
+		case 7: // near-miss start/stop letters (other Codabar dialects use E, T, N, *; lower case)
+			x := rapid.SampledFrom([]string{"E", "T", "N", "*", "a", "b", "c", "d", "e", "F", "0", "-"}).Draw(t, "nearmiss")
+			if rapid.Bool().Draw(t, "atstart") {
+				s = x + s[1:]
+			} else {
+				s = s[:len(s)-1] + x
+			}
 		}
 	} else {
 		n := rapid.IntRange(1, 60).Draw(t, "n")
